@@ -9,25 +9,27 @@ that is not a key / `select` / `jump_*` under an open candidate list.
 namespace Chewing.C01
 open Chewing Chewing.C04 Chewing.C05 Chewing.C06
 
-variable {D L : Type} {env : Env D L} {G : D → Prop}
+variable {D L : Type} {env : Env D L} {G : D → Prop} {w : Prop}
 
-/-- **the reachable-state invariant of the editor** -/
-structure EditorInv (env : Env D L) (G : D → Prop) (e : Editor D L) : Prop where
-  sh : ShInv env G e.shared
-  st : StInv env e.shared e.state
+/-- **the reachable-state invariant of the editor**, in two strengths (see `ShInv`): `EditorInv env G False`
+    is the safety invariant every operation keeps, `EditorInv env G True` adds "every buffered syllable has a
+    word under every active lookup strategy", kept outside the class `Known` -/
+structure EditorInv (env : Env D L) (G : D → Prop) (w : Prop) (e : Editor D L) : Prop where
+  sh : ShInv env G w e.shared
+  st : StInv env w e.shared e.state
 
 /-- `StInv` under a change of fields the selector invariant does not read -/
-theorem StInv.same {sh sh' : Shared D L} {st : St} (h : StInv env sh st) (hc : sh'.com = sh.com)
-    (hd : sh'.dict = sh.dict) : StInv env sh' st :=
+theorem StInv.same {sh sh' : Shared D L} {st : St} (h : StInv env w sh st) (hc : sh'.com = sh.com)
+    (hd : sh'.dict = sh.dict) : StInv env w sh' st :=
   h.congr (by rw [hc]) (by rw [hc]) (fun c s hh => by rw [hd]; exact hh)
 
 /-! ## `process_keyevent` -/
 
-theorem tail_ok (hE : EnvOK env G) {sh : Shared D L} {st : St} (h : ShInv env G sh) (hs : StInv env sh st) :
-    OkAnd (fun x => EditorInv env G x.1) (tail env sh st) := by
-  have key : ∀ sh2 : Shared D L, ShInv env G sh2 → StInv env sh2 st →
-      EditorInv env G { shared := if sh2.dirty > 0 then { sh2 with dict := env.reopenFlush sh2.dict, dirty := 0 } else sh2,
-                        state := st } := by
+theorem tail_ok (hE : EnvOK env G) {sh : Shared D L} {st : St} (h : ShInv env G w sh) (hs : StInv env w sh st) :
+    OkAnd (fun x => EditorInv env G w x.1) (tail env sh st) := by
+  have key : ∀ sh2 : Shared D L, ShInv env G w sh2 → StInv env w sh2 st →
+      EditorInv env G w { shared := if sh2.dirty > 0 then { sh2 with dict := env.reopenFlush sh2.dict, dirty := 0 } else sh2,
+                            state := st } := by
     intro sh2 h2 hs2
     split
     · exact ⟨(h2.setDict (hE.flush_good _ h2.good) (hE.flush_mono _)).congr rfl rfl rfl rfl rfl rfl,
@@ -46,19 +48,19 @@ theorem tail_ok (hE : EnvOK env G) {sh : Shared D L} {st : St} (h : ShInv env G 
   · rw [if_neg hc]
     exact .ok (key sh h hs)
 
-theorem preamble_inv {sh : Shared D L} (h : ShInv env G sh) : ShInv env G (preamble sh) :=
+theorem preamble_inv {sh : Shared D L} (h : ShInv env G w sh) : ShInv env G w (preamble sh) :=
   h.congr rfl rfl rfl rfl rfl rfl
 
-theorem applyTrans_ok {sh : Shared D L} {st : St} {t : Trans} (h : ShInv env G sh) (hs0 : StInv env sh st)
-    (hs : ∀ s, t = .toState s → StInv env sh s) :
-    ShInv env G (applyTrans sh st t).1 ∧ StInv env (applyTrans sh st t).1 (applyTrans sh st t).2 := by
+theorem applyTrans_ok {sh : Shared D L} {st : St} {t : Trans} (h : ShInv env G w sh) (hs0 : StInv env w sh st)
+    (hs : ∀ s, t = .toState s → StInv env w sh s) :
+    ShInv env G w (applyTrans sh st t).1 ∧ StInv env w (applyTrans sh st t).1 (applyTrans sh st t).2 := by
   cases t with
   | toState s => exact ⟨h.congr rfl rfl rfl rfl rfl rfl, (hs s rfl).same rfl rfl⟩
   | spin b => exact ⟨h.congr rfl rfl rfl rfl rfl rfl, hs0.same rfl rfl⟩
 
 /-- the state machine part of a key, outside an open candidate list -/
-theorem dispatch_ok (hE : EnvOK env G) {e : Editor D L} (hi : EditorInv env G e) (hns : ∀ s, e.state ≠ .selecting s)
-    (ev : KeyEvent) : OkAnd (fun x => ShInv env G x.1 ∧ StInv env x.1 x.2) (dispatch env e ev) := by
+theorem dispatch_ok (hE : EnvOK env G) {e : Editor D L} (hi : EditorInv env G w e) (hns : ∀ s, e.state ≠ .selecting s)
+    (ev : KeyEvent) : OkAnd (fun x => ShInv env G w x.1 ∧ StInv env w x.1 x.2) (dispatch env e ev) := by
   have h0 := preamble_inv hi.sh
   unfold dispatch
   split
@@ -75,8 +77,8 @@ theorem dispatch_ok (hE : EnvOK env G) {e : Editor D L} (hi : EditorInv env G e)
     exact .ok (applyTrans_ok hsh trivial hst)
 
 /-- **a key event** in `Entering`, `EnteringSyllable` or `Highlighting` -/
-theorem processKey_ok (hE : EnvOK env G) {e : Editor D L} (hi : EditorInv env G e) (hns : ∀ s, e.state ≠ .selecting s)
-    (ev : KeyEvent) : OkAnd (fun x => EditorInv env G x.1) (e.processKey env ev) := by
+theorem processKey_ok (hE : EnvOK env G) {e : Editor D L} (hi : EditorInv env G w e) (hns : ∀ s, e.state ≠ .selecting s)
+    (ev : KeyEvent) : OkAnd (fun x => EditorInv env G w x.1) (e.processKey env ev) := by
   rw [processKey_eq]
   obtain ⟨⟨sh, st⟩, hq, h1, h2⟩ := dispatch_ok hE hi hns ev
   rw [hq]
@@ -84,18 +86,18 @@ theorem processKey_ok (hE : EnvOK env G) {e : Editor D L} (hi : EditorInv env G 
 
 /-! ## the other entry points -/
 
-theorem leaveIfEmpty_inv {e : Editor D L} (hi : EditorInv env G e) : EditorInv env G (Editor.leaveIfEmpty env e) := by
+theorem leaveIfEmpty_inv {e : Editor D L} (hi : EditorInv env G w e) : EditorInv env G w (Editor.leaveIfEmpty env e) := by
   unfold Editor.leaveIfEmpty
   split
   · exact ⟨hi.sh, trivial⟩
   · exact hi
 
-theorem startSelecting_api_ok (hE : EnvOK env G) {e : Editor D L} (hi : EditorInv env G e) :
-    OkAnd (fun x => EditorInv env G x.1) (e.startSelecting env) := by
+theorem startSelecting_api_ok (hE : EnvOK env G) {e : Editor D L} (hi : EditorInv env G w e) :
+    OkAnd (fun x => EditorInv env G w x.1) (e.startSelecting env) := by
   unfold Editor.startSelecting
   dsimp only
-  have fin : ∀ (sh : Shared D L) (t : Trans), ShInv env G sh → StInv env sh e.state → (∀ s, t = .toState s → StInv env sh s) →
-      EditorInv env G (Editor.leaveIfEmpty env { shared := (applyTrans sh e.state t).1, state := (applyTrans sh e.state t).2 }) :=
+  have fin : ∀ (sh : Shared D L) (t : Trans), ShInv env G w sh → StInv env w sh e.state → (∀ s, t = .toState s → StInv env w sh s) →
+      EditorInv env G w (Editor.leaveIfEmpty env { shared := (applyTrans sh e.state t).1, state := (applyTrans sh e.state t).2 }) :=
     fun sh t h1 h2 h3 => leaveIfEmpty_inv ⟨(applyTrans_ok h1 h2 h3).1, (applyTrans_ok h1 h2 h3).2⟩
   cases hst : e.state with
   | entering =>
@@ -124,15 +126,15 @@ theorem startSelecting_api_ok (hE : EnvOK env G) {e : Editor D L} (hi : EditorIn
     rw [hst] at this
     exact .ok this
 
-theorem cancelSelecting_api_ok {e : Editor D L} (hi : EditorInv env G e) : EditorInv env G e.cancelSelecting.1 := by
+theorem cancelSelecting_api_ok {e : Editor D L} (hi : EditorInv env G w e) : EditorInv env G w e.cancelSelecting.1 := by
   unfold Editor.cancelSelecting
   split
   · refine ⟨?_, trivial⟩
     exact (hi.sh.setComSame (ced_popCursor hi.sh.ced) (by rw [popCursor_inner])).congr rfl rfl rfl rfl rfl rfl
   · exact hi
 
-theorem commit_api_ok (hE : EnvOK env G) {e : Editor D L} (hi : EditorInv env G e) :
-    OkAnd (fun x => EditorInv env G x.1) (e.commit env) := by
+theorem commit_api_ok (hE : EnvOK env G) {e : Editor D L} (hi : EditorInv env G w e) :
+    OkAnd (fun x => EditorInv env G w x.1) (e.commit env) := by
   unfold Editor.commit
   split
   · exact .ok hi
@@ -142,15 +144,15 @@ theorem commit_api_ok (hE : EnvOK env G) {e : Editor D L} (hi : EditorInv env G 
       exact hc.1
     obtain ⟨sh, hq, h1, _⟩ := commit_ok hE hi.sh
     rw [hq]
-    exact .ok ⟨h1, by show StInv env sh e.state; rw [hst]; trivial⟩
+    exact .ok ⟨h1, by show StInv env w sh e.state; rw [hst]; trivial⟩
 
-theorem clear_api_ok {e : Editor D L} (hi : EditorInv env G e) : EditorInv env G (e.clear env) := by
+theorem clear_api_ok {e : Editor D L} (hi : EditorInv env G w e) : EditorInv env G w (e.clear env) := by
   refine ⟨⟨hi.sh.good, ced_clear hi.sh.ced, ?_, hi.sh.coupled, hi.sh.perPage, hi.sh.symOK⟩, trivial⟩
-  intro c hc
+  intro _ c hc
   simp [Editor.clear, Shared.clear, CompEditor.clear, Composition.clear] at hc
 
-theorem learn_api_ok (hE : EnvOK env G) {e : Editor D L} (hi : EditorInv env G e) (k : List Nat) (p : Text) :
-    OkAnd (EditorInv env G) ((Shared.learnPhrase env e.shared k p).map fun (sh, _) => { e with shared := sh }) := by
+theorem learn_api_ok (hE : EnvOK env G) {e : Editor D L} (hi : EditorInv env G w e) (k : List Nat) (p : Text) :
+    OkAnd (EditorInv env G w) ((Shared.learnPhrase env e.shared k p).map fun (sh, _) => { e with shared := sh }) := by
   obtain ⟨⟨sh, b⟩, hq, h1, hk⟩ := learnPhrase_ok hE hi.sh k p
   rw [hq]
   exact .ok ⟨h1, hi.st.congr (by rw [hk.com]) (by rw [hk.com]) hk.mono⟩
@@ -169,7 +171,10 @@ def selStrategy : St → Option Strategy
     | _ => none
   | _ => none
 
-/-- **the known class (F02, F03), state based**: after the operation some buffered syllable has no word
+/-- **the word-losing operations (the former known class F02 / F03), state based** — no longer a crash class:
+    since the repair every operation is safe from every reachable state (`apply_ok` at strength `False`); the
+    predicate now only delimits where the clause "every buffered syllable has a word" (strength `True`) may be
+    lost: after the operation some buffered syllable has no word
     under an active lookup strategy (the engine's, the editor's, an open selector's) — reachable only by
     removing a phrase or by changing the lookup strategy / engine — or prefix lookup is configured
     without the prefix-matching engine (possible through the Rust API only: the C API sets both) -/
@@ -191,9 +196,9 @@ def OpValid : Op L → Prop
   | .setOptions o => 0 < o.candidatesPerPage
   | _ => True
 
-theorem stInv_unlearn {e : Editor D L} (hi : EditorInv env G e) {d : D}
-    (hw : ∀ s, selStrategy e.state = some s → WordsUnder env d e.shared.com.inner s) {sh' : Shared D L}
-    (hc : sh'.com = e.shared.com) (hd : sh'.dict = d) : StInv env sh' e.state := by
+theorem stInv_unlearn {e : Editor D L} (hi : EditorInv env G w e) {d : D}
+    (hw : w → ∀ s, selStrategy e.state = some s → WordsUnder env d e.shared.com.inner s) {sh' : Shared D L}
+    (hc : sh'.com = e.shared.com) (hd : sh'.dict = d) : StInv env w sh' e.state := by
   have hst := hi.st
   cases hs : e.state with
   | selecting s =>
@@ -203,9 +208,8 @@ theorem stInv_unlearn {e : Editor D L} (hi : EditorInv env G e) {d : D}
     split
     · next p hp =>
       rw [hp] at h1
-      have hw' := hw p.strategy (by simp only [selStrategy, hp])
-      exact ⟨h1.com.trans (by rw [hc]), h1.lt, h1.le, h1.syl, fun c hcm => by
-        rw [hd]; exact hw' c (by rw [← h1.com]; exact hcm), h1.anchor⟩
+      exact ⟨h1.com.trans (by rw [hc]), h1.lt, h1.le, h1.syl, fun hw0 c hcm => by
+        rw [hd]; exact hw hw0 p.strategy (by simp only [selStrategy, hp]) c (by rw [← h1.com]; exact hcm), h1.anchor⟩
     · next y hp => rw [hp] at h1; exact h1
     · next sym hp => rw [hp] at h1; exact h1
   | entering => trivial
